@@ -336,15 +336,26 @@ func (n *WorkflowNode) addDependencyRelation(fromNodeKey string, inputs []*Field
 }
 
 func (n *WorkflowNode) checkAndAddMappedPath(paths []FieldPath) error {
+	// no mapping at all, or a mapping without a target field (FromField), targets the entire input
+	entire := len(paths) == 0
+	for _, targetPath := range paths {
+		if len(targetPath) == 0 {
+			if len(paths) > 1 {
+				return fmt.Errorf("cannot map the entire input of node %s together with some of its fields", n.key)
+			}
+			entire = true
+		}
+	}
+
 	if v, ok := n.mappedFieldPath[""]; ok {
 		if _, ok = v.(struct{}); ok {
 			return fmt.Errorf("entire output has already been mapped for node: %s", n.key)
 		}
-		if len(paths) == 0 {
+		if entire {
 			return fmt.Errorf("fields have already been mapped for node: %s, cannot map the entire input as well", n.key)
 		}
 	} else {
-		if len(paths) == 0 {
+		if entire {
 			n.mappedFieldPath[""] = struct{}{}
 			return nil
 		} else {
